@@ -150,10 +150,13 @@ def build_block(src, selector, rx, opts, sections, emitter):
                 raise X.ExtractError(f"{selector} block: loop /{hm.group(2)}/ #{kk} not found (lost anchor)")
             cb_ = match_close(m_text, hits[kk - 1][1])
             add_insert(cb_ + 1 if hm.group(1) == "afterloop" else (hits[kk - 1][1] + 1 if hm.group(1) == "startloop" else cb_), "\n" + val.rstrip("\n") + "\n")
-        elif key.startswith("hint "):
-            hm = re.match(r"hint (before|after) /(.*)/\s*(\d+)?$", key)
+        elif key.startswith("hint ") or key.startswith("hint? "):
+            # `hint?`: the hint is skipped when its anchor is absent (a proof step for a statement that may be gone)
+            hm = re.match(r"hint\??\s+(before|after) /(.*)/\s*(\d+)?$", key)
             where, hrx, kk = hm.group(1), hm.group(2), int(hm.group(3) or 1)
             ms = list(re.finditer(hrx, m_text))
+            if len(ms) < kk and key.startswith("hint? "):
+                continue
             if len(ms) < kk:
                 raise X.ExtractError(f"{selector} block: hint anchor /{hrx}/ #{kk} not found (lost anchor)")
             add_insert(ms[kk - 1].start() if where == "before" else ms[kk - 1].end(), "\n" + val.rstrip("\n") + "\n")
